@@ -86,4 +86,11 @@ func registerSpecs() {
 		Stub: []string{"ACME CA (http.RoundTripper in the harness: directory, newNonce, newAccount, newOrder, newAuthz, order, authz, challenge, finalize, certificate, revoke; reads nonce and url from the JWS protected header, verifies no signature)", "application callers (harness tasks)", "goroutine scheduler and clock (verifsimrt baton scheduler inside a testing/synctest bubble)", "crypto/rand (testing/cryptotest.SetGlobalRandom, seeded)"},
 		Assumptions: []string{"a request is attributed to a client call through the context the client passes to HTTPClient; a request without it is attributed only when a single call is in flight", "return at the context's end is judged exactly only with a single caller (with several callers a call may wait behind another call's lock, which is not a retry)", "liveness is judged at quiescence: no task runnable, no timer pending", "the exact back-off schedule is not asserted (only: consulted, n counted from 1, not earlier than the returned duration / Retry-After, never after a non-positive return)"},
 	}
+	specs["C35"] = &spec{
+		Harness: "flow", Level: "exploration", QuickRuns: 8000, ThoroughRuns: 200000, Chunk: 250,
+		Rule: "one case = 1-3 channels (opened by either side) in one of two systems under one seeded schedule. System A: local data and stderr writers (0-4 writes of 0..200000 bytes each) against a scripted peer with initial window 0..300 and maximum packet 9..64 (sometimes defaults or other sizes) that grants window in generated increments at generated moments and, once the system is idle, whenever a writer is starved. System B: a compliant scripted sender (data, stderr data and extended data with codes > 1, packets up to the advertised maximum, never beyond the window it computed from the open/confirm message and the adjusts it received; sometimes several MiB, mostly in discarded extended streams) against local readers with read sizes 1..100000 that may start only when the system is idle. Non-trivial = the connection protocol ran; distinct = distinct hash of (schedule, events)",
+		Real: []string{"ssh mux and channels of the working tree (instrumented copy) through ssh.VerifNewMuxConn: window.reserve/add, WriteExtended, handleData, adjustWindow, buffer"},
+		Stub: append([]string{"scripted peer at packet level (RFC 4254 messages built by the harness)", "packet connection (pktnet, no transport/encryption)", "local application readers/writers"}, sshStub[1:2]...),
+		Assumptions: []string{"'maximum packet size' bounds the data length field of a data packet", "liveness is judged at quiescence with the peer granting window whenever a writer is starved", "System C of the design (two real stacks with default windows) is covered by the C31 harness, which checks data integrity of concurrent streams over real transports"},
+	}
 }
